@@ -243,6 +243,30 @@ fn s_clone_into_tick_opt(b: &B) -> O {
     per_batch(b, |x| ints(x).into_iter().map(|v| vp(v, 5)).collect())
 }
 
+// ---- flows with simulated futures (really suspend inside a tick) --------------------------------
+fn run3(xs: &[Val]) -> Vec<Val> {
+    let mut acc: i32 = 0;
+    ints(xs)
+        .into_iter()
+        .map(|v| {
+            acc = acc.wrapping_mul(3).wrapping_add(v as i32);
+            vi(acc as i64)
+        })
+        .collect()
+}
+fn s_chain_async(b: &B) -> O {
+    per_batch2(b, |f, s| run3(f).into_iter().chain(s.iter().cloned()).collect())
+}
+fn s_chain_async_second(b: &B) -> O {
+    per_batch2(b, |f, s| f.iter().cloned().chain(run3(s)).collect())
+}
+fn s_async_scan(b: &B) -> O {
+    per_batch(b, run3)
+}
+fn s_resolve_blocking(b: &B) -> O {
+    per_batch(b, |x| sorted(vints(ints(x).into_iter().map(|v| v + 1))))
+}
+
 use e4_gen::glue::*;
 
 macro_rules! e {
@@ -259,6 +283,10 @@ macro_rules! e {
         }
     };
 }
+
+pub const TA_CHAIN_ASYNC: Entry = e!(ta_chain_async, x_ta_chain_async, &[Shape::Int, Shape::Int], OutKind::Seq, s_chain_async);
+pub const TA_CHAIN_ASYNC_SECOND: Entry = e!(ta_chain_async_second, x_ta_chain_async_second, &[Shape::Int, Shape::Int], OutKind::Seq, s_chain_async_second);
+pub const TA_ASYNC_SCAN: Entry = e!(ta_async_scan, x_ta_async_scan, &[Shape::Int], OutKind::Seq, s_async_scan);
 
 pub const ENTRIES: &[Entry] = &[
     e!(t_fold, x_t_fold, &[Shape::Int], OutKind::Seq, s_fold),
@@ -295,6 +323,10 @@ pub const ENTRIES: &[Entry] = &[
     e!(t_noorder_count, x_t_noorder_count, &[Shape::Int], OutKind::Seq, s_count),
     e!(t_clone_into_tick, x_t_clone_into_tick, &[Shape::Int], OutKind::Seq, s_clone_into_tick),
     e!(t_clone_into_tick_opt, x_t_clone_into_tick_opt, &[Shape::Int], OutKind::Seq, s_clone_into_tick_opt),
+    TA_CHAIN_ASYNC,
+    TA_CHAIN_ASYNC_SECOND,
+    TA_ASYNC_SCAN,
+    e!(ta_resolve_blocking, x_ta_resolve_blocking, &[Shape::Int], OutKind::Bag, s_resolve_blocking),
 ];
 
 /// One simulated run of a C30 entry.
@@ -304,8 +336,12 @@ pub fn run(entry: &Entry, sim: &mut Sim) -> Outcome {
     // no drain logic here: `extra` empty ticks after the last release observe deferred items
     // (and that they do not come out a second time)
     let extra = 2 + sim.choose("extra_ticks", 0, 2) as usize;
-    let (plan, noncanon) = sched::partition(sim, &inputs, &knobs, 0, extra);
+    let (mut plan, noncanon) = sched::partition(sim, &inputs, &knobs, 0, extra);
     let items = plan.items();
+    if entry.name.starts_with("ta_") {
+        // how often every simulated future of the flow answers Pending before it completes
+        plan.pends = (0..items).map(|_| sim.choose("pend", 0, 2) as u8).collect();
+    }
     sim.event(0x3000 + items as u64, || format!("entry {} inputs {:?}", entry.name, inputs));
     sim.event(plan.steps() as u64, || format!("batches {:?} (+{} empty ticks)", plan.rel, extra));
     let ex = (entry.exec)(&plan, &mut EagerNet::default());
@@ -336,6 +372,9 @@ pub fn run(entry: &Entry, sim: &mut Sim) -> Outcome {
     }
     if plan.rel.iter().any(|r| r.iter().filter(|b| !b.is_empty()).count() >= 2) {
         sim.probe("two_nonempty_batches");
+    }
+    if ex.suspensions > 0 {
+        sim.fault("future_suspended_in_tick");
     }
     let nontrivial = items > 0 && noncanon;
     Outcome { violation, nontrivial, sim_time: ex.total_ticks as u64, discarded: false }
